@@ -41,6 +41,7 @@ func (k Keeper) initFirstPositionForPool(ctx sdk.Context, pool types.Pool, amoun
 func (k Keeper) resetPool(ctx sdk.Context, pool types.Pool) error {
 	pool.CurrentSqrtPrice = math.LegacyZeroDec().String()
 	pool.CurrentTick = 0
+	pool.CurrentTickLiquidity = math.LegacyZeroDec().String()
 
 	err := k.SetPool(ctx, pool)
 	if err != nil {
